@@ -501,6 +501,26 @@ def cond_strings(test, outcome=True):
             left, right = right, left
         if op in (ast.Eq, ast.NotEq) and right < left:
             left, right = right, left
+        # a length is never negative: len(x) != 0, len(x) > 0 and len(x) >= 1
+        # are one condition (0 < len(x)); so are == 0, <= 0 and < 1
+        for a, b in ((left, right), (right, left)):
+            if a.startswith("len(") and a.endswith(")") and \
+                    a.count("(") == a.count(")"):
+                if (op is ast.NotEq and b == "0") or (
+                        op is ast.LtE and (b, a) == (left, right)
+                        and b == "1") :
+                    return [f"0 < {a}"]
+                if (op is ast.Eq and b == "0") or (
+                        op is ast.LtE and (a, b) == (left, right)
+                        and b == "0") or (
+                        op is ast.Lt and (a, b) == (left, right)
+                        and b == "1"):
+                    return [f"{a} <= 0"]
         return [f"{left} {_SYM[op]} {right}"]
+    if isinstance(test, ast.Call) and isinstance(test.func, ast.Name) and \
+            test.func.id == "len" and len(test.args) == 1 and \
+            not test.keywords:
+        txt = ast.unparse(test)
+        return [f"0 < {txt}" if outcome else f"{txt} <= 0"]
     txt = ast.unparse(test)
     return [txt if outcome else f"not {txt}"]
